@@ -7,13 +7,14 @@
 // alphabet, and judged by brute-force code that only sees the GetMeshGL64
 // export: long-double sums, all-triangle loops, all-triangle-pair loops.
 //
-// Phases
+// Phases (sizes: quick / thorough; see TIER and main)
 //   measure   one case per object: Volume, SurfaceArea, BoundingBox, count
-//             getters, Genus, WindingNumber (407 points), Slice (7 heights x
-//             144 samples), Project (256 samples), Decompose
-//   raycast   one case per object of the ray family: every ordered pair of the
-//             64 lattice points (4032 segments)
-//   mingap    one case per ordered pair of the 40 (quick) placed objects, three
+//             getters, Genus, WindingNumber (64+343 / 64+1331 points), Slice
+//             (7 heights x 144 / 576 samples), Project (256 / 1024 samples),
+//             Decompose
+//   raycast   one case per object: every ordered pair of the 64 / 216 lattice
+//             points (4032 / 46440 segments)
+//   mingap    one case per ordered pair of the 48 / 144 placed objects, three
 //             search lengths each
 #include <cfloat>
 #include <cmath>
